@@ -24,7 +24,8 @@ CONSTANTS Sess,          \* set of session ids
           Frag,          \* TRUE: session-control segments are written in two pieces
           HoldMutex,     \* TRUE: the mutex is held across the pieces (the code); FALSE: released (defect)
           CloseC,        \* client applications close after their last write
-          Recheck        \* TRUE: Read re-checks the queue when it sees the closed event (the fixed code)
+          Recheck,       \* TRUE: Read re-checks the queue when it sees the closed event (the fixed code)
+          Tampers        \* how many pieces an on-path attacker may alter / insert / delete / swap (C04)
 
 Ends == {"C", "S"}
 Peer(e) == IF e = "C" THEN "S" ELSE "C"
@@ -184,9 +185,25 @@ AppClose(e, s) ==
   /\ eof' = [eof EXCEPT ![e][s] = "self"]
   /\ UNCHANGED <<appW, mutex, inprog, sendCtr, recvCtr, wire, asm, chan, rq, got, rd, broken>>
 
+(* C04: an attacker alters authenticated bytes of a piece in flight (bit flip, substitution), removes or
+   inserts bytes (every later ciphertext is then opened at the wrong position), or swaps two pieces.
+   In each case the next open fails authentication: modelled as a piece whose counter can never match. *)
+NTampered == Len(SelectSeq(wire["C"], LAMBDA p : p.ctr < 0)) + Len(SelectSeq(wire["S"], LAMBDA p : p.ctr < 0))
+TamperAlter(e) ==
+  /\ ~broken /\ wire[e] # <<>> /\ NTampered < Tampers
+  /\ \E k \in 1..Len(wire[e]) :
+       /\ wire[e][k].ctr >= 0
+       /\ wire' = [wire EXCEPT ![e][k].ctr = -1]
+  /\ UNCHANGED <<st, appW, sendQ, mutex, inprog, sendCtr, recvCtr, asm, chan, rq, got, rd, eof, broken>>
+TamperSwap(e) ==
+  /\ ~broken /\ Len(wire[e]) >= 2 /\ NTampered < Tampers
+  /\ \E k \in 1..(Len(wire[e]) - 1) :
+       wire' = [wire EXCEPT ![e] = [j \in 1..Len(@) |-> IF j = k THEN @[k + 1] ELSE IF j = k + 1 THEN @[k] ELSE @[j]]]
+  /\ UNCHANGED <<st, appW, sendQ, mutex, inprog, sendCtr, recvCtr, asm, chan, rq, got, rd, eof, broken>>
+
 Next == \/ \E e \in Ends, s \in Sess : AppWrite(e, s) \/ WriteBegin(e, s) \/ Input(e, s)
                                         \/ ReaderCheck(e, s) \/ ReaderWait(e, s) \/ AppClose(e, s)
-        \/ \E e \in Ends : WriteNext(e) \/ RecvPiece(e)
+        \/ \E e \in Ends : WriteNext(e) \/ RecvPiece(e) \/ TamperAlter(e) \/ TamperSwap(e)
 
 Spec == Init /\ [][Next]_vars
 
@@ -202,7 +219,7 @@ PrefixOK == \A e \in Ends, s \in Sess :
               /\ Len(Handed(e, s)) <= appW[Peer(e)][s]
 
 \* C01: with the mutex held across the pieces of a segment, the stream never loses framing
-NoFramingLoss == HoldMutex => ~broken
+NoFramingLoss == (HoldMutex /\ Tampers = 0) => ~broken
 
 \* C03: clean EOF only after everything the closing peer wrote
 CloseNoTrunc == \A e \in Ends, s \in Sess :
